@@ -34,9 +34,7 @@ Init == l = 1 /\ pats = {} /\ bad = {}
 Next == Reset \/ Rejected \/ Insert \/ Probe
 Spec == Init /\ [][Next]_vars
 
-\* every event consumed, and the offending indices printed for the runner
-Accepted ==
-  /\ PrintT(<<"CONSUMED", TLCGet("stats").diameter - 1, Len(Trace)>>)
-  /\ TLCGet("stats").diameter - 1 = Len(Trace)
-Final == (l = Len(Trace) + 1) => PrintT(<<"BAD", bad>>)
+\* Reached only when every event has been consumed: the verdict file is written exactly then.
+Final == (l = Len(Trace) + 1) =>
+           JsonSerialize(IOEnv.RESULT_FILE, [bad |-> bad, consumed |-> l - 1, total |-> Len(Trace)])
 =============================================================================
